@@ -146,39 +146,49 @@ def corr(ctx, ncases=None, oracle_only=False):
                 'non-trivial = populated distribution and non-zero growth field; distinct = (kind tuple, n, seed)')
     N = ncases or ctx.n(1500, 40000)
     cases, impl, lines, extra = [], [], [], []
-    for _ in range(N):
-        c = gen_case(ctx.rng)
-        pbm, psd, flux, nucRate, nucRad = build(c)
-        n = c['n']; b = pbm.PSDbounds.copy()
-        psd0, flux0 = psd.copy(), flux.copy()
-        d = pbm.getdXdtEuler(flux, nucRate, nucRad, psd)
-        nf = pbm._netFlux.copy()
-        d_nuconly = pbm.getdXdtEuler(np.zeros(n + 1), nucRate, nucRad, psd)   # zero growth: only the nucleation term is left
-        # step limit
-        if c['maxdiss'] > 0 and psd.sum() > 0:
+    holder = {}
+    def one_case():
+            c = gen_case(ctx.rng); holder['case'] = c
+            L = []
+            pbm, psd, flux, nucRate, nucRad = build(c)
+            n = c['n']; b = pbm.PSDbounds.copy()
+            psd0, flux0 = psd.copy(), flux.copy()
+            d = pbm.getdXdtEuler(flux, nucRate, nucRad, psd)
+            nf = pbm._netFlux.copy()
+            d_nuconly = pbm.getdXdtEuler(np.zeros(n + 1), nucRate, nucRad, psd)   # zero growth: only the nucleation term is left
+            # step limit
+            if c['maxdiss'] > 0 and psd.sum() > 0:
+                pbm.PSD = psd.copy()
+                dissIdx = int(pbm.getDissolutionIndex(c['maxdiss'], 0))
+            else:
+                dissIdx = 0
             pbm.PSD = psd.copy()
-            dissIdx = int(pbm.getDissolutionIndex(c['maxdiss'], 0))
-        else:
-            dissIdx = 0
-        pbm.PSD = psd.copy()
-        currDT = 1.0e5
-        dtlim = float(pbm.getDTEuler(currDT, flux, dissIdx, c['ratio']))
-        dt = dtlim * c['dtmul'] if c['dtmul'] < 5 else dtlim * 10
-        pbm.getdXdtEuler(flux, nucRate, nucRad, psd)
-        dc = pbm.correctdXdtEuler(dt, flux, nucRate, nucRad, psd)
-        nfc = pbm._netFlux.copy()
-        argmod = not (np.array_equal(psd, psd0) and np.array_equal(flux, flux0))
-        cases.append((c, b, psd, flux, nucRate, nucRad, dissIdx, dt, currDT))
-        impl.append((d, nf, d_nuconly, dtlim, dc, nfc, argmod))
-        lines.append('pbm.dxdt %s %s %s %s %s' % (enc_list(b), enc_list(flux), enc_list(psd), f2b(nucRate), f2b(nucRad)))
-        lines.append('pbm.correct %s %s %s %s %s %s' % (enc_list(b), enc_list(flux), enc_list(psd), f2b(nucRate), f2b(nucRad), f2b(dt)))
-        lines.append('pbm.getdt %s %s %s %d %s %s' % (enc_list(b), enc_list(flux), enc_list(psd), dissIdx, f2b(currDT), f2b(c['ratio'])))
-        # dissolution index with a non-trivial lower bound as well (the caller passes RdrivingForceIndex)
-        minIdx = int(np.random.default_rng(c['s'] + 7).integers(0, max(1, n // 3) + 1))
-        pbm.PSD = psd.copy()
-        dI = int(pbm.getDissolutionIndex(c['maxdiss'] if c['maxdiss'] > 0 else 1e-3, minIdx))
-        extra.append((minIdx, dI, pbm.PSDsize.copy()))
-        lines.append('pbm.dissidx %s %s %s %d' % (enc_list(psd), enc_list(pbm.PSDsize), f2b(c['maxdiss'] if c['maxdiss'] > 0 else 1e-3), minIdx))
+            currDT = 1.0e5
+            dtlim = float(pbm.getDTEuler(currDT, flux, dissIdx, c['ratio']))
+            dt = dtlim * c['dtmul'] if c['dtmul'] < 5 else dtlim * 10
+            pbm.getdXdtEuler(flux, nucRate, nucRad, psd)
+            dc = pbm.correctdXdtEuler(dt, flux, nucRate, nucRad, psd)
+            nfc = pbm._netFlux.copy()
+            argmod = not (np.array_equal(psd, psd0) and np.array_equal(flux, flux0))
+            L.append('pbm.dxdt %s %s %s %s %s' % (enc_list(b), enc_list(flux), enc_list(psd), f2b(nucRate), f2b(nucRad)))
+            L.append('pbm.correct %s %s %s %s %s %s' % (enc_list(b), enc_list(flux), enc_list(psd), f2b(nucRate), f2b(nucRad), f2b(dt)))
+            L.append('pbm.getdt %s %s %s %d %s %s' % (enc_list(b), enc_list(flux), enc_list(psd), dissIdx, f2b(currDT), f2b(c['ratio'])))
+            # dissolution index with a non-trivial lower bound as well (the caller passes RdrivingForceIndex)
+            minIdx = int(np.random.default_rng(c['s'] + 7).integers(0, max(1, n // 3) + 1))
+            pbm.PSD = psd.copy()
+            dI = int(pbm.getDissolutionIndex(c['maxdiss'] if c['maxdiss'] > 0 else 1e-3, minIdx))
+            L.append('pbm.dissidx %s %s %s %d' % (enc_list(psd), enc_list(pbm.PSDsize), f2b(c['maxdiss'] if c['maxdiss'] > 0 else 1e-3), minIdx))
+            # all implementation calls of this case succeeded: register it atomically
+            cases.append((c, b, psd, flux, nucRate, nucRad, dissIdx, dt, currDT))
+            impl.append((d, nf, d_nuconly, dtlim, dc, nfc, argmod))
+            extra.append((minIdx, dI, pbm.PSDsize.copy()))
+            lines.extend(L)
+
+    for _ in range(N):
+        holder.clear()
+        ok, _ = vlib.guarded(res, 'pbm-transport', holder, one_case)
+        if not ok and res.violations and res.violations[-1]['key'].startswith('raises:'):
+            res.violations[-1]['case'] = dict(holder.get('case', {}))
     model = vlib.run_driver(PROP, lines) if (ctx.driver_ok and not oracle_only) else None
 
     for k, ((c, b, psd, flux, nucRate, nucRad, dissIdx, dt, currDT), (d, nf, d_nuconly, dtlim, dc, nfc, argmod)) in enumerate(zip(cases, impl)):
@@ -291,6 +301,7 @@ def corr(ctx, ncases=None, oracle_only=False):
                     res.count('nonneg-class-checked')
                     if new[i] < -1e-9 * psd[i] - 1e-300:
                         res.violate('nonneg-under-limit', 'class %d negative after an Euler step at the model step limit' % i, desc, float(new[i]), 0.0); break
+    vlib.finish_guard(res)
     return res
 
 
